@@ -314,7 +314,10 @@ class Check(PropertyCheck):
                   "demanded, but a failed handshake is rejected; (c) `nm` cases have no implementation side (they tie the Python transcription of `matches` to the "
                   "Lean one); (d) the tie compares outcome and the SNI extension actually sent, nothing else. All expected values come from the case: chain validity "
                   "from cryptography's verifier over the minted chain and the configured anchors, the name rule from the case's SAN list; no clause compares two "
-                  "outputs of the layer except the consistency check 'not both established and failed'.")
+                  "outputs of the layer except the consistency check 'not both established and failed'. FINDING F-C15a (QUIC path): a server certificate with an "
+                  "IP-literal dNSName SAN makes service_identity raise CertificateError inside aioquic's own error handler; the exception leaves "
+                  "QuicLayer.receive_handshake_data (no hook, no error, child unanswered) — fail-closed but not the clean failure the property demands; "
+                  "known() is exactly that class (selftest with near misses).")
     technique = "Lean 4 proof (decision model + name-matching specification + refinement of the OpenSSL transcription) + translator (flag constants, AST facts) + real-handshake correspondence with an independent chain verifier"
     rule = ("hs: name set (22 shapes: matching, mismatched, wildcard, partial/second-label/double/TLD wildcards, CN-only, IP SAN, IP as dNSName, IDN, case, "
             "non-DNS SANs) x validity {ok, expired, not yet valid} x issuer {trusted root, other root, self-signed, intermediate with/without chain} x target "
@@ -575,26 +578,32 @@ class Check(PropertyCheck):
         def pump():
             while queue:
                 for cmd in top.handle_event(queue.popleft()): handle(cmd)
-        queue.append(events.Start()); pump()
-        for _ in range(400):
-            if app.done and (app.err or data_at_server): break
-            if wakeups:
-                wakeups.sort(key=lambda x: x[0]); t, cmd = wakeups.pop(0)
-                now[0] = max(now[0], t) + 0.01; queue.append(events.Wakeup(cmd))
-            else:
-                now[0] += 0.5
-            if srv:
-                timer = srv[0].get_timer()
-                if timer is not None and timer <= now[0]: srv[0].handle_timer(now[0])
-                drain()
-            pump()
+        layer_exception = None
+        try:
+            queue.append(events.Start()); pump()
+            for _ in range(400):
+                if app.done and (app.err or data_at_server): break
+                if wakeups:
+                    wakeups.sort(key=lambda x: x[0]); t, cmd = wakeups.pop(0)
+                    now[0] = max(now[0], t) + 0.01; queue.append(events.Wakeup(cmd))
+                else:
+                    now[0] += 0.5
+                if srv:
+                    timer = srv[0].get_timer()
+                    if timer is not None and timer <= now[0]: srv[0].handle_timer(now[0])
+                    drain()
+                pump()
+        except Exception as e:
+            # an exception out of the layer's handle_event: proxy/server.py logs "mitmproxy has crashed!" — the handshake never
+            # completes, no hook fires, the child is never answered.  Observed as such and judged by the oracle.
+            layer_exception = f"{type(e).__name__}: {e}"[:100]
         raised = [h for h in hooks if h.startswith("raised:")]
         est, failed = "tls_established_server" in hooks, "tls_failed_server" in hooks
         outcome = "hookRaised" if (raised or "quic_start_server" not in hooks) else "established" if est else "failed"
         return {"outcome": outcome, "hooks": [("tls_start_server" if h == "quic_start_server" else h) for h in hooks if h.startswith(("tls_", "quic_", "raised"))],
                 "open_result": None if app.err is None else "n/a" if app.err == "n/a" else "error", "conn_error": bool(ctx.server.error), "closed": closed[0],
                 "peer_plain": hx(bytes(data_at_server)), "peer_done": est, "sni_ext": None, "tls_established": bool(ctx.server.tls_established),
-                "chain_ok": chain_ok(case["cert"]), "established_and_failed": est and failed}
+                "chain_ok": chain_ok(case["cert"]), "established_and_failed": est and failed, "layer_exception": layer_exception}
 
     def server_ctx(self, cert_spec, tls12=False, sni_seen=None):
         P = pki()
@@ -670,6 +679,7 @@ class Check(PropertyCheck):
                     for f in self.oracle(dict(c, op="hs", cert=cert, address="seq"), o)]
         if "exc" in obs: return ["layer raised " + obs["exc"]]
         fails = []
+        if obs.get("layer_exception"): fails.append("layer raised " + obs["layer_exception"])
         insecure = case["trust"].startswith("insecure")
         trusted_root_configured = case["trust"] in ("file", "dir", "insecure")
         chain = obs["chain_ok"] and trusted_root_configured
@@ -703,7 +713,38 @@ class Check(PropertyCheck):
             fails.append(f"tls_start_server raised / built nothing for the usable server name {eff!r}")
         return fails
 
+    F_C15A_FAILURES = ("layer raised CertificateError: Invalid DNS pattern", "tls_failed_server hook did not fire", "no error recorded on the connection",
+                       "child was told 'n/a' instead of an error", "connection not closed after the failure")
+
+    def known(self, case, obs, failure):
+        """F-C15a, exactly: QUIC upstream path, verification on, the server certificate has a dNSName SAN that service_identity refuses as a pattern
+        (an IP-address literal), the exception that left the layer is that CertificateError, and the failure is the exception itself or one of its
+        direct consequences (no failure hook, no error, child unanswered, connection not closed).  Anything else is still reported."""
+        if case.get("op") != "qhs" or not isinstance(obs, dict): return None
+        if not (obs.get("layer_exception") or "").startswith("CertificateError: Invalid DNS pattern"): return None
+        if case["trust"].startswith("insecure"): return None
+        def is_ip(v):
+            try: ipaddress.ip_address(v); return True
+            except ValueError: return False
+        if not any(k == "dns" and is_ip(v) for k, v in case["cert"]["sans"]): return None
+        return "F-C15a" if failure.startswith(self.F_C15A_FAILURES) else None
+
     def known_selftest(self):
+        # F-C15a: positive witness and near misses
+        wq = {"op": "qhs", "cert": {"sans": [["dns", "192.0.2.1"], ["dns", "*.0.2.1"]], "cn": None, "validity": "ok", "issuer": "rootA"}, "names": "ip-as-dns",
+              "client_sni": "www.example.com", "server_sni": None, "address": "10.0.0.1", "trust": "file"}
+        wo = {"layer_exception": "CertificateError: Invalid DNS pattern b'192.0.2.1'."}
+        assert self.known(wq, wo, "layer raised CertificateError: Invalid DNS pattern b'192.0.2.1'.") == "F-C15a"
+        assert self.known(wq, wo, "tls_failed_server hook did not fire") == "F-C15a"
+        assert self.known(wq, wo, "application data reached the server although the handshake failed") is None          # same input, other failure
+        assert self.known(wq, wo, "handshake completed although the certificate does not name 'www.example.com'") is None
+        assert self.known(wq, {"layer_exception": "KeyError: 'x'"}, "layer raised KeyError: 'x'") is None                  # other exception
+        assert self.known(dict(wq, cert=dict(wq["cert"], sans=[["dns", "www.example.com"]])), wo, "tls_failed_server hook did not fire") is None   # no such SAN
+        assert self.known(dict(wq, op="hs"), wo, "tls_failed_server hook did not fire") is None                              # TCP path
+        assert self.known(dict(wq, trust="insecure"), wo, "tls_failed_server hook did not fire") is None
+        self._oracle_selftest()
+
+    def _oracle_selftest(self):
         """doctored observations just outside each lenient branch must be rejected (independent of the tree under test)"""
         mk = lambda sni, trust, issuer="rootA", names="matching": {"op": "hs", "cert": {"sans": NAMESETS[names], "cn": None, "validity": "ok", "issuer": issuer},
                                                                    "names": names, "client_sni": sni, "server_sni": None, "address": "10.0.0.1", "trust": trust}
